@@ -182,6 +182,8 @@ def run(ctx):
     nil_cases(ctx, res)
     hand_cases(ctx, res)
     header_cases(ctx, res)
+    settings_assignment_cases(ctx, res)
+    xsitype_content_cases(ctx, res)
     if pending:
         res.sample(dict(document=pending[len(pending) // 2][3]["document"][:500], strict=pending[len(pending) // 2][3]["strict"]))
     res.exhaustive = True
@@ -332,6 +334,90 @@ def hand_cases(ctx, res):
                 res.failures.append(dict(what="strict decoding accepted an undeclared element inside wildcard content that is decoded against its global declaration", case=c))
 
 
+POLY_XSD = ('<xs:schema xmlns:xs="http://www.w3.org/2001/XMLSchema" xmlns:t="urn:fam" targetNamespace="urn:fam" elementFormDefault="qualified">'
+            '<xs:complexType name="Empty"/><xs:complexType name="Abstract" abstract="true"/>'
+            '<xs:complexType name="Circle"><xs:complexContent><xs:extension base="t:Empty"><xs:sequence><xs:element name="r" type="xs:int"/>'
+            '<xs:element name="inner" minOccurs="0"><xs:complexType><xs:sequence><xs:element name="deep" type="xs:string"/></xs:sequence></xs:complexType></xs:element>'
+            '</xs:sequence></xs:extension></xs:complexContent></xs:complexType>'
+            '<xs:complexType name="Square"><xs:complexContent><xs:extension base="t:Abstract"><xs:sequence><xs:element name="side" type="xs:int"/></xs:sequence></xs:extension></xs:complexContent></xs:complexType>'
+            '<xs:complexType name="Free"><xs:sequence><xs:element name="v" type="xs:string"/></xs:sequence></xs:complexType>'
+            '<xs:element name="root"><xs:complexType><xs:sequence><xs:element name="k" type="xs:string"/>'
+            '<xs:element name="shape" type="t:Empty" minOccurs="0"/><xs:element name="abs" type="t:Abstract" minOccurs="0"/>'
+            '<xs:element name="extra" type="xs:anyType" minOccurs="0"/><xs:element name="misc" minOccurs="0"/></xs:sequence></xs:complexType></xs:element></xs:schema>')
+
+
+def settings_assignment_cases(ctx, res):
+    """one Settings object, one thread: a `with settings(strict=...)` block, later a plain assignment of `strict`, then a reply
+    with an undeclared element - the decode follows the value assigned last (strict rejects, non-strict keeps the element raw)"""
+    import zeep.xsd
+    doc = '<f:root xmlns:f="urn:fam"><f:a>1</f:a><f:stranger>s</f:stranger></f:root>'
+    for block_val, assigned in ((False, True), (True, False), (False, False), (True, True)):
+        for construct in ("default", "explicit"):
+            import zeep.settings
+            st = zeep.settings.Settings() if construct == "default" else zeep.settings.Settings(strict=not assigned)
+            zs = zeep.xsd.Schema(etree.fromstring((HAND_XSD % "lax").encode()), settings=st)
+            root = zs.get_element("{urn:fam}root")
+            with zs.settings(strict=block_val):
+                pass
+            zs.settings.strict = assigned
+            res.case(key=("hand-assign", block_val, assigned, construct), nontrivial=True)
+            res.count("hand:block-then-assignment")
+            c = dict(kind="hand", probe="settings-assignment", block=block_val, assigned=assigned, constructed=construct)
+            try:
+                v = enginea.canon_value(root.parse(etree.fromstring(doc.encode()), zs))
+                out = "ok"
+            except Exception as e:  # noqa
+                out, v = type(e).__name__, None
+            if assigned and out == "ok":
+                res.failures.append(dict(what="settings.strict was assigned True after a settings block, but the reply with an undeclared element was accepted", case=c))
+            elif not assigned and out != "ok":
+                res.failures.append(dict(what="settings.strict was assigned False after a settings block, but the reply was rejected (%s) instead of keeping the element raw" % out, case=c))
+            elif not assigned and not contains_stranger_or_note(v):
+                res.failures.append(dict(what="non-strict mode dropped the element without trace", case=c))
+
+
+def xsitype_content_cases(ctx, res):
+    """content decoded under an xsi:type whose *declared* type has no content of its own (an empty or abstract base type,
+    xsd:anyType, an element declared without type): a stranger inside that content - at any depth - is rejected in strict mode
+    and kept raw in non-strict mode, exactly as without the substitution"""
+    import zeep.xsd
+    import zeep.settings
+    X = 'xmlns:xsi="http://www.w3.org/2001/XMLSchema-instance"'
+    circle = '<f:r>1</f:r><f:inner><f:deep>d</f:deep>%s</f:inner>%s'
+    carriers = {"empty-base": '<f:shape xsi:type="f:Circle">%s</f:shape>', "abstract-base": '<f:abs xsi:type="f:Square"><f:side>2</f:side>%s</f:abs>',
+                "anyType": '<f:extra xsi:type="f:Free"><f:v>v</f:v>%s</f:extra>', "untyped": '<f:misc xsi:type="f:Circle">%s</f:misc>'}
+    stray = '<f:stranger>s</f:stranger>'
+    for cname, tmpl in carriers.items():
+        variants = [("valid", "", "")]
+        if "%s" in tmpl:
+            variants += [("stray-last", "", stray), ("stray-deep", stray, "")]
+        for vname, deep, last in variants:
+            if cname in ("empty-base", "untyped"):
+                inner = circle % (deep, last)
+            else:
+                if vname == "stray-deep":
+                    continue
+                inner = last
+            doc = '<f:root xmlns:f="urn:fam" %s><f:k>x</f:k>%s</f:root>' % (X, tmpl % inner)
+            for strict in (True, False):
+                zs = zeep.xsd.Schema(etree.fromstring(POLY_XSD.encode()), settings=zeep.settings.Settings(strict=strict))
+                res.case(key=("hand-xsitype", cname, vname, strict), nontrivial=True)
+                res.count("hand:xsitype-content:" + cname)
+                c = dict(kind="hand", probe="xsitype-content", declared=cname, variant=vname, strict=strict, document=doc)
+                try:
+                    v = enginea.canon_value(zs.get_element("{urn:fam}root").parse(etree.fromstring(doc.encode()), zs))
+                    out = "ok"
+                except Exception as e:  # noqa
+                    out, v = type(e).__name__, None
+                if vname == "valid":
+                    if out != "ok":
+                        res.failures.append(dict(what="a valid document with an xsi:type substitution is refused: %s" % out, case=c))
+                elif strict and out == "ok":
+                    res.failures.append(dict(what="strict decoding accepted an undeclared element inside content decoded under an xsi:type (declared type: %s): %r" % (cname, v), case=c))
+                elif not strict and out == "ok" and not contains_stranger_or_note(v):
+                    res.failures.append(dict(what="non-strict mode dropped the element inside xsi:typed content without trace: %r" % (v,), case=c))
+
+
 def contains_stranger_or_note(v):
     if isinstance(v, dict):
         if "__xml__" in v:
@@ -473,6 +559,8 @@ def replay(ctx, payload):
     if c.get("kind") == "hand":
         r = Result()
         hand_cases(ctx, r)
+        settings_assignment_cases(ctx, r)
+        xsitype_content_cases(ctx, r)
         bad = [f for f in r.failures if f["case"].get("probe") == c.get("probe")]
         return (not bad), "hand-written probe rerun: %s" % (bad[0]["what"] if bad else "holds")
     if c.get("kind") == "nil-complex":
